@@ -102,6 +102,35 @@ impl Property for C20 {
                 }
             }
         }
+        // long vectors: all forms of shifts by >= 1024 and of the binary operators
+        for t in [TID_D, TID_A, 18u8] {
+            if !sh.mine() {
+                continue;
+            }
+            let c = fixed_cap(t).unwrap_or(usize::MAX);
+            for n in [1100usize, 2048, 2049, 4097] {
+                let n = n.min(c);
+                for a in [Bits::ones(n), dense_value(n)] {
+                    for k in [64usize, 1000, 1024, 1030, 1088, n - 64, n - 1] {
+                        for op in [AnyOp::Shl, AnyOp::Shr] {
+                            if !f(C20Case { a: Operand::canon(t, a.clone()), b: Rhs::N(Nat::new(NatTy::U32, k as u128)), op }) {
+                                return;
+                            }
+                        }
+                    }
+                    for op in BIN_OPS {
+                        for (rt, m) in [(TID_D, n), (TID_A, n / 2 + 3), (11u8, 192)] {
+                            if !f(C20Case { a: Operand::canon(t, a.clone()), b: Rhs::V(Operand::canon(rt, dense_value(m))), op: AnyOp::Bin(op) }) {
+                                return;
+                            }
+                        }
+                        if !f(C20Case { a: Operand::canon(t, a.clone()), b: Rhs::N(Nat::new(NatTy::U128, 0xFFFF_FFFF_FFFF_FFFF_0000_0001)), op: AnyOp::Bin(op) }) {
+                            return;
+                        }
+                    }
+                }
+            }
+        }
         let ks = tier.pick(4, 6);
         for t in 0..NT {
             if !sh.mine() {
